@@ -36,21 +36,14 @@
 (* (trimming the result again changes nothing), same (every definition      *)
 (* left has the text it had).                                               *)
 (*                                                                         *)
-(* Layer A is the predicate Allowed(G, Ar, R): exactly the results the      *)
-(* property statement allows.  Where the statement is silent the predicate  *)
-(* is permissive (see the comments at MayFns, C5, C7).                      *)
+(* Layer A is the predicate Allowed(I, Ar, R) with I = Info(G): exactly the *)
+(* results the property statement allows.  Where the statement is silent    *)
+(* the predicate is permissive (see the comments at MayFns, C5, C7).        *)
 (***************************************************************************)
 EXTENDS Naturals, Sequences, FiniteSets, TLC
 
 Range(s) == {s[i] : i \in DOMAIN s}
-
 SLKinds == {"struct", "union", "exception"}
-Alive(G) == {d \in 1..Len(G.defs) : G.defs[d].k # "dead"}
-OfKind(G, K) == {d \in Alive(G) : G.defs[d].k \in K}
-Services(G) == OfKind(G, {"service"})
-StructLikes(G) == OfKind(G, SLKinds)
-FileOf(G, d) == G.defs[d].f
-Files(G) == 1..Len(G.inc)
 
 RECURSIVE TypeRefs(_)
 TypeRefs(t) == CASE t.n = "b" -> {}
@@ -60,17 +53,42 @@ TypeRefs(t) == CASE t.n = "b" -> {}
 SeqRefs(ts) == UNION {TypeRefs(ts[i]) : i \in DOMAIN ts}
 FnRefs(fn) == SeqRefs(fn.a) \cup SeqRefs(fn.r) \cup SeqRefs(fn.t)
 
-AllFns(G) == UNION {{<<s, G.defs[s].fns[i].name>> : i \in DOMAIN G.defs[s].fns} : s \in Services(G)}
-FnRec(G, sf) == LET fs == G.defs[sf[1]].fns IN fs[CHOOSE i \in DOMAIN fs : fs[i].name = sf[2]]
+FileReach(E, S) ==   \* files reachable from the files S over the include edges E
+  LET RECURSIVE R(_)
+      R(X) == LET Y == X \cup {e[2] : e \in {e \in E : e[1] \in X}} IN IF Y = X THEN X ELSE R(Y)
+  IN R(S)
 
-\* the chain s, base(s), base(base(s)), ...
-RECURSIVE Anc(_, _)
-Anc(G, s) == IF G.defs[s].ext = 0 THEN <<s>> ELSE <<s>> \o Anc(G, G.defs[s].ext)
-AncSet(G, s) == Range(Anc(G, s))
-PathTo(G, r, x) == LET a == Anc(G, r)
+\* everything about a program that does not depend on arguments or results, computed once per program
+Info(G) ==
+  LET nd    == Len(G.defs)
+      alive == {d \in 1..nd : G.defs[d].k # "dead"}
+      kind(K) == {d \in alive : G.defs[d].k \in K}
+      svcs  == kind({"service"})
+      files == 1..Len(G.inc)
+      ainc  == UNION {{<<f, G.inc[f][k]>> : k \in 1..Len(G.inc[f])} : f \in files}
+      RECURSIVE anc(_)
+      anc(s) == IF G.defs[s].ext = 0 THEN <<s>> ELSE <<s>> \o anc(G.defs[s].ext)
+  IN [G      |-> G,
+      alive  |-> alive,
+      files  |-> files,
+      svcs   |-> svcs,
+      sls    |-> kind(SLKinds),
+      always |-> kind({"const", "typedef"}),          \* never removed, and roots of the closure
+      cte    |-> kind({"const", "typedef", "enum"}),
+      enumf  |-> {G.defs[d].f : d \in kind({"enum"})},
+      ainc   |-> ainc,
+      below  |-> [f \in files |-> FileReach(ainc, {f})],
+      roots  |-> {s \in svcs : G.defs[s].f = 1},
+      anc    |-> [s \in svcs |-> anc(s)],
+      fns    |-> UNION {{<<s, G.defs[s].fns[i].name>> : i \in DOMAIN G.defs[s].fns} : s \in svcs},
+      succ   |-> [d \in alive |-> IF G.defs[d].k = "service" THEN {} ELSE SeqRefs(G.defs[d].ty)]]
+
+FileOf(I, d) == I.G.defs[d].f
+FnRec(I, sf) == LET fs == I.G.defs[sf[1]].fns IN fs[CHOOSE i \in DOMAIN fs : fs[i].name = sf[2]]
+AncSet(I, s) == Range(I.anc[s])
+PathTo(I, r, x) == LET a == I.anc[r]
                        k == CHOOSE i \in DOMAIN a : a[i] = x
                    IN {a[i] : i \in 1..k}
-RootSvcs(G) == {s \in Services(G) : FileOf(G, s) = 1}
 
 \* method patterns: what `-m <text>` denotes on <<service, function>> in this universe
 Match(p, s, fn) == CASE p.q = "exact"  -> p.s = s /\ p.f = fn.name      \* -m S1.m1
@@ -81,124 +99,118 @@ Match(p, s, fn) == CASE p.q = "exact"  -> p.s = s /\ p.f = fn.name      \* -m S1
 
 \* an unqualified name means the method of that name in SOME service of the root file (the statement does not
 \* say which when there are several); every consistent reading is an interpretation
-Interps(G, pats) ==
+Interps(I, pats) ==
   LET U == {i \in DOMAIN pats : pats[i].q = "unq"}
       Q == {pats[i] : i \in DOMAIN pats \ U}
-  IN IF U = {} \/ RootSvcs(G) = {} THEN {Q}
-     ELSE {Q \cup {[q |-> "exact", s |-> c[i], f |-> pats[i].f] : i \in U} : c \in [U -> RootSvcs(G)]}
+  IN IF U = {} \/ I.roots = {} THEN {Q}
+     ELSE {Q \cup {[q |-> "exact", s |-> c[i], f |-> pats[i].f] : i \in U} : c \in [U -> I.roots]}
 
-\* ------------------------------------------------------------------ reachability
-Succ(G, d) == IF G.defs[d].k = "service" THEN {} ELSE SeqRefs(G.defs[d].ty)
-ReachFrom(G, S) ==
+ReachFrom(I, S) ==
   LET RECURSIVE R(_)
-      R(X) == LET Y == X \cup UNION {Succ(G, d) : d \in X} IN IF Y = X THEN X ELSE R(Y)
+      R(X) == LET Y == X \cup UNION {I.succ[d] : d \in X} IN IF Y = X THEN X ELSE R(Y)
   IN R(S)
 
-FileReach(E, S) ==   \* files reachable from the files S over the include edges E
-  LET RECURSIVE R(_)
-      R(X) == LET Y == X \cup {e[2] : e \in {e \in E : e[1] \in X}} IN IF Y = X THEN X ELSE R(Y)
-  IN R(S)
-AllInc(G) == UNION {{<<f, G.inc[f][k]>> : k \in 1..Len(G.inc[f])} : f \in Files(G)}
-
-PresMust(G, Ar) == IF Ar.preserve = "off" THEN {}
-                   ELSE {d \in StructLikes(G) : d \in Range(Ar.plist) \/ (G.defs[d].pres = "c" /\ ~Ar.nocomment)}
+PresMust(I, Ar) == IF Ar.preserve = "off" THEN {}
+                   ELSE {d \in I.sls : d \in Range(Ar.plist) \/ (I.G.defs[d].pres = "c" /\ ~Ar.nocomment)}
 \* disable_preserve_comment is not mentioned by the statement: a commented struct may then go or stay
-PresMay(G, Ar) == IF Ar.preserve = "off" THEN {}
-                  ELSE {d \in StructLikes(G) : d \in Range(Ar.plist) \/ G.defs[d].pres = "c"}
+PresMay(I, Ar) == IF Ar.preserve = "off" THEN {}
+                  ELSE {d \in I.sls : d \in Range(Ar.plist) \/ I.G.defs[d].pres = "c"}
 
 \* ------------------------------------------------------------------ layer A
-Always(G) == OfKind(G, {"const", "typedef"})
+\* <<function, root service it is reached from, service on the path whose name the pattern uses>>
+Selected(I, P) ==
+  {w \in I.fns \X I.roots \X I.svcs :
+      /\ w[1][1] \in AncSet(I, w[2])
+      /\ w[3] \in PathTo(I, w[2], w[1][1])
+      /\ \E p \in P : Match(p, w[3], FnRec(I, w[1]))}
 
-MustFns(G, P) ==
-  IF P = {} THEN {sf \in AllFns(G) : \E r \in RootSvcs(G) : sf[1] \in AncSet(G, r)}
-  ELSE {sf \in AllFns(G) : \E r \in RootSvcs(G) : /\ sf[1] \in AncSet(G, r)
-                                                  /\ \E s2 \in PathTo(G, r, sf[1]) :
-                                                       /\ FileOf(G, s2) = 1
-                                                       /\ \E p \in P : Match(p, s2, FnRec(G, sf))}
+MustFns(I, P, sel) ==
+  IF P = {} THEN {sf \in I.fns : \E r \in I.roots : sf[1] \in AncSet(I, r)}
+  ELSE {w[1] : w \in {w \in sel : FileOf(I, w[3]) = 1}}
 \* May: without a filter the statement does not speak about services of included files that nobody extends.
 \* With a filter: a method selected through the name of a base service that lives in an included file, and the
 \* other methods of base services ("base-service methods they need") may stay.
-MayFns(G, P) ==
-  IF P = {} THEN AllFns(G)
-  ELSE {sf \in AllFns(G) : \E r \in RootSvcs(G) : /\ sf[1] \in AncSet(G, r)
-                                                  /\ \/ sf[1] # r
-                                                     \/ \E s2 \in PathTo(G, r, sf[1]), p \in P : Match(p, s2, FnRec(G, sf))}
+MayFns(I, P, sel) ==
+  IF P = {} THEN I.fns
+  ELSE {w[1] : w \in sel} \cup {sf \in I.fns : \E r \in I.roots : sf[1] \in AncSet(I, r) \ {r}}
 
 \* a kept method addressed through service s2 needs s2, the service that defines it and the `extends` chain between
-LinksOK(G, P, R) ==
-  IF P = {} THEN \A r \in RootSvcs(G) : \A y \in AncSet(G, r) : y \in R.kept /\ (G.defs[y].ext # 0 => y \in R.ext)
-  ELSE \A sf \in MustFns(G, P) : \A r \in RootSvcs(G) :
-         sf[1] \in AncSet(G, r) =>
-           \A s2 \in PathTo(G, r, sf[1]) :
-             (FileOf(G, s2) = 1 /\ \E p \in P : Match(p, s2, FnRec(G, sf))) =>
-                \A y \in PathTo(G, s2, sf[1]) : y \in R.kept /\ (y # sf[1] => y \in R.ext)
+LinksOK(I, P, sel, R) ==
+  IF P = {} THEN \A r \in I.roots : \A y \in AncSet(I, r) : y \in R.kept /\ (I.G.defs[y].ext # 0 => y \in R.ext)
+  ELSE \A w \in sel : FileOf(I, w[3]) = 1 =>
+         \A y \in PathTo(I, w[3], w[1][1]) : y \in R.kept /\ (y # w[1][1] => y \in R.ext)
 
 \* what a kept definition d refers to directly
-DirectRefs(G, R, d) ==
-  IF G.defs[d].k = "service"
-  THEN UNION {FnRefs(FnRec(G, sf)) : sf \in {x \in R.fns : x[1] = d}} \cup (IF d \in R.ext THEN {G.defs[d].ext} ELSE {})
-  ELSE SeqRefs(G.defs[d].ty) \cup Range(G.defs[d].cv)
+DirectRefs(I, R, d) ==
+  IF I.G.defs[d].k = "service"
+  THEN UNION {FnRefs(FnRec(I, sf)) : sf \in {x \in R.fns : x[1] = d}} \cup (IF d \in R.ext THEN {I.G.defs[d].ext} ELSE {})
+  ELSE I.succ[d] \cup Range(I.G.defs[d].cv)
 
-AllowedI(G, Ar, P, R) ==
+\* C6: every remaining reference resolves, through an include that is still there
+WellFormed(I, R) ==
+  \A d \in R.kept : \A e \in DirectRefs(I, R, d) :
+     e \in R.kept /\ (FileOf(I, e) = FileOf(I, d) \/ <<FileOf(I, d), FileOf(I, e)>> \in R.inc)
+
+Shape(I, R) ==
+  /\ R.kept \subseteq I.alive
+  /\ R.inc \subseteq I.ainc
+  /\ R.fns \subseteq I.fns /\ \A sf \in R.fns : sf[1] \in R.kept
+  /\ R.ext \subseteq {s \in R.kept \cap I.svcs : I.G.defs[s].ext # 0}
+
+AllowedI(I, Ar, P, R) ==
   LET surv   == FileReach(R.inc, {1})
-      roots  == UNION {FnRefs(FnRec(G, sf)) : sf \in R.fns} \cup Always(G)
-      rMust  == ReachFrom(G, roots \cup PresMust(G, Ar))
-      rMay   == ReachFrom(G, roots \cup PresMay(G, Ar))
-      enumF  == {FileOf(G, d) : d \in OfKind(G, {"enum"})}
-      ms0    == {1} \cup {FileOf(G, d) : d \in rMust}
+      sel    == Selected(I, P)
+      roots  == UNION {FnRefs(FnRec(I, sf)) : sf \in R.fns} \cup I.always
+      rMust  == ReachFrom(I, roots \cup PresMust(I, Ar))
+      rMay   == ReachFrom(I, roots \cup PresMay(I, Ar))
+      ms0    == {1} \cup {FileOf(I, d) : d \in rMust}
       RECURSIVE MS(_)
-      MS(X)  == LET Y == X \cup {g \in enumF : \E f \in X : <<f, g>> \in AllInc(G)} IN IF Y = X THEN X ELSE MS(Y)
-      contributes(g) == \E h \in FileReach(AllInc(G), {g}) : \E d \in Alive(G) :
-                           FileOf(G, d) = h /\ (G.defs[d].k \in {"const", "typedef", "enum"} \/ d \in rMay)
-      refersInto(f, g) == \E d \in R.kept : FileOf(G, d) = f /\ \E e \in DirectRefs(G, R, d) : FileOf(G, e) = g
+      MS(X)  == LET Y == X \cup {g \in I.enumf : \E f \in X : <<f, g>> \in I.ainc} IN IF Y = X THEN X ELSE MS(Y)
+      giving == {FileOf(I, d) : d \in I.cte \cup rMay}                      \* files that contribute something
+      refersInto(f, g) == \E d \in R.kept : FileOf(I, d) = f /\ \E e \in DirectRefs(I, R, d) : FileOf(I, e) = g
   IN
   \* C0 shape of the result
-  /\ R.kept \subseteq Alive(G) /\ \A d \in R.kept : FileOf(G, d) \in surv
-  /\ R.inc \subseteq AllInc(G)
-  /\ R.fns \subseteq AllFns(G) /\ \A sf \in R.fns : sf[1] \in R.kept
-  /\ R.ext \subseteq {s \in R.kept \cap Services(G) : G.defs[s].ext # 0}
+  /\ Shape(I, R) /\ \A d \in R.kept : FileOf(I, d) \in surv
   \* C8 methods: only matching methods (and base-service methods they need), all matching ones, with their services
-  /\ MustFns(G, P) \subseteq R.fns /\ R.fns \subseteq MayFns(G, P)
-  /\ LinksOK(G, P, R)
+  /\ MustFns(I, P, sel) \subseteq R.fns /\ R.fns \subseteq MayFns(I, P, sel)
+  /\ LinksOK(I, P, sel, R)
   \* C1 all constants and typedefs are kept
-  /\ Always(G) \subseteq R.kept
+  /\ I.always \subseteq R.kept
   \* C2 nothing but struct-likes, services and includes is ever removed from a file that stays
-  /\ \A d \in OfKind(G, {"enum", "const", "typedef"}) : FileOf(G, d) \in surv => d \in R.kept
+  /\ \A d \in I.cte : FileOf(I, d) \in surv => d \in R.kept
   \* C3 soundness: everything reachable from the kept methods, constants, typedefs and preserved structs is kept
   /\ rMust \subseteq R.kept
   \* C4 minimality: every other struct-like is removed
-  /\ \A d \in R.kept : G.defs[d].k \in SLKinds => d \in rMay
+  /\ \A d \in R.kept \cap I.sls : d \in rMay
   \* C5 "keeps all enums": the file of an enum stays when a file that must stay includes it.  (An enum behind a
   \*    file that contributes nothing else may go with that file: "removes every include no longer needed".)
   /\ MS(ms0) \subseteq surv
-  \* C6 the result is well formed: every remaining reference resolves, through an include that is still there
-  /\ \A d \in R.kept : \A e \in DirectRefs(G, R, d) :
-        e \in R.kept /\ (FileOf(G, e) = FileOf(G, d) \/ <<FileOf(G, d), FileOf(G, e)>> \in R.inc)
+  \* C6 the result is well formed
+  /\ WellFormed(I, R)
   \* C7 every include no longer needed is removed: an include that stays is referred into by something kept, or
   \*    the included file (with what it includes) contributes constants / typedefs / enums / kept struct-likes
-  /\ \A e \in R.inc : e[1] \in surv => (refersInto(e[1], e[2]) \/ contributes(e[2]))
+  /\ \A e \in R.inc : e[1] \in surv => (refersInto(e[1], e[2]) \/ I.below[e[2]] \cap giving # {})
 
-Allowed(G, Ar, R) ==
+Allowed(I, Ar, R) ==
   /\ R.ok      \* valid IDL set: no error, passes semantic analysis, dump re-parses
   /\ R.same    \* meaning of what is kept is unchanged
   /\ R.idem    \* trimming again changes nothing
-  /\ \E P \in Interps(G, Ar.pats) : AllowedI(G, Ar, P, R)
+  /\ \E P \in Interps(I, Ar.pats) : AllowedI(I, Ar, P, R)
 
 \* which clause fails first (diagnostics for rejected observations)
-Why(G, Ar, R) ==
+Why(I, Ar, R) ==
   IF ~R.ok THEN "invalid-result" ELSE IF ~R.same THEN "meaning-changed" ELSE IF ~R.idem THEN "not-idempotent"
-  ELSE LET P == CHOOSE P \in Interps(G, Ar.pats) : TRUE
-           surv  == FileReach(R.inc, {1})
-           roots == UNION {FnRefs(FnRec(G, sf)) : sf \in R.fns} \cup Always(G)
-           rMust == ReachFrom(G, roots \cup PresMust(G, Ar))
-           rMay  == ReachFrom(G, roots \cup PresMay(G, Ar))
-       IN IF ~(MustFns(G, P) \subseteq R.fns) THEN "matching-method-removed"
-          ELSE IF ~(R.fns \subseteq MayFns(G, P)) THEN "non-matching-method-kept"
-          ELSE IF ~LinksOK(G, P, R) THEN "service-chain-broken"
+  ELSE LET P == CHOOSE P \in Interps(I, Ar.pats) : TRUE
+           sel   == Selected(I, P)
+           roots == UNION {FnRefs(FnRec(I, sf)) : sf \in R.fns} \cup I.always
+           rMust == ReachFrom(I, roots \cup PresMust(I, Ar))
+           rMay  == ReachFrom(I, roots \cup PresMay(I, Ar))
+       IN IF ~Shape(I, R) THEN "malformed-observation"
+          ELSE IF ~(MustFns(I, P, sel) \subseteq R.fns) THEN "matching-method-removed"
+          ELSE IF ~(R.fns \subseteq MayFns(I, P, sel)) THEN "non-matching-method-kept"
+          ELSE IF ~LinksOK(I, P, sel, R) THEN "service-chain-broken"
           ELSE IF ~(rMust \subseteq R.kept) THEN "needed-definition-removed"
-          ELSE IF \E d \in R.kept : G.defs[d].k \in SLKinds /\ d \notin rMay THEN "unneeded-struct-kept"
-          ELSE IF \E d \in R.kept : \E e \in DirectRefs(G, R, d) :
-                    ~(e \in R.kept /\ (FileOf(G, e) = FileOf(G, d) \/ <<FileOf(G, d), FileOf(G, e)>> \in R.inc))
-               THEN "dangling-reference"
+          ELSE IF \E d \in R.kept \cap I.sls : d \notin rMay THEN "unneeded-struct-kept"
+          ELSE IF ~WellFormed(I, R) THEN "dangling-reference"
           ELSE "include-or-enum-rule"
 =============================================================================
